@@ -1403,6 +1403,9 @@ class Evaluator:
                 if dp is not None:
                     newpairs = [(k, v) for k, v in dp if k != key] + [(key, value)]
                     st.env[target.value.id] = mk_dict(newpairs)
+                elif isinstance(obj, App) and obj.op in ("loopvar", "mutated") and not is_alias(obj) and not isinstance(target.slice, ast.Slice):
+                    # a local container filled inside a loop: the store is part of the value the name has afterwards
+                    st.env[target.value.id] = App("mutated", (obj, Const("__setitem__"), key, value), target)
         elif isinstance(target, ast.Starred):
             self.bind_target(target.value, value, st, fr)
         else:
@@ -1768,8 +1771,12 @@ class Evaluator:
                 k += 1
             body_eff = list(alts[0][:k]) + [App("eff:alts", [App("seq", a[k:]) for a in alts], s)]
         out = st.copy()
-        out.effects = list(st.effects[:base_e]) + [App("eff:loop", (it, App("seq", body_eff)), s)]
         final_env = fall.env if fall is not None else sub.env
+        # the values the loop carries from one iteration to the next (per-iteration update terms over loopvar(...)): kept with the loop
+        # so that a term can be evaluated on concrete data (sa.teval folds them over the items)
+        carried = App("carried", [App("kv", (Const(n), final_env.get(n, Sym("undef:" + n)))) for n in sorted(assigned)
+                                  if n in sub.env and not (isinstance(s, ast.For) and n in {x.id for x in ast.walk(s.target) if isinstance(x, ast.Name)})])
+        out.effects = list(st.effects[:base_e]) + [App("eff:loop", (it, App("seq", body_eff), carried), s)]
         for n in assigned:
             if isinstance(s, ast.For) and n in {x.id for x in ast.walk(s.target) if isinstance(x, ast.Name)}:
                 out.env[n] = App("elem", (it,), s.iter)
